@@ -37,7 +37,7 @@ func parallel(n int, deadline time.Time, fn func(i int)) (int64, bool) {
 				if i >= n {
 					return
 				}
-				if !deadline.IsZero() && i&0x3f == 0 && time.Now().After(deadline) {
+				if !deadline.IsZero() && (n < 4096 || i&0x3f == 0) && time.Now().After(deadline) {
 					complete.Store(false)
 					return
 				}
